@@ -20,13 +20,19 @@ pub fn reset_peak() -> isize {
     now
 }
 
+// (only while armed, i.e. in the C14 child during a case: two contended atomics on every
+// allocation would slow every other part of this binary down several times)
 fn grow(by: usize) {
-    let now = LIVE.fetch_add(by as isize, Ordering::Relaxed) + by as isize;
-    PEAK.fetch_max(now, Ordering::Relaxed);
+    if ARMED.load(Ordering::Relaxed) {
+        let now = LIVE.fetch_add(by as isize, Ordering::Relaxed) + by as isize;
+        PEAK.fetch_max(now, Ordering::Relaxed);
+    }
 }
 
 fn shrink(by: usize) {
-    LIVE.fetch_sub(by as isize, Ordering::Relaxed);
+    if ARMED.load(Ordering::Relaxed) {
+        LIVE.fetch_sub(by as isize, Ordering::Relaxed);
+    }
 }
 
 thread_local! {
